@@ -73,13 +73,12 @@ impl Part {
     }
 }
 
-pub fn run_part(p: &Part, rep: &mut Report) {
-    let names = crate::props::flag_names(&p.prop);
-    let cfg = SweepCfg { name: &p.name, flag_names: &names, cap: p.cap, nontrivial_mask: 0b101_1111 };
-    run_sweep(&cfg, p.count(), |i| crate::props::run_case(&p.case(i)), |i| serde_json::to_value(p.case(i)).unwrap(), rep);
+pub fn run_part(p: &Part, names: &[&str], nontrivial_mask: u64, run_case: &(dyn Fn(&GCase) -> Outcome + Sync), rep: &mut Report) {
+    let cfg = SweepCfg { name: &p.name, flag_names: names, cap: p.cap, nontrivial_mask };
+    run_sweep(&cfg, p.count(), |i| run_case(&p.case(i)), |i| serde_json::to_value(p.case(i)).unwrap(), rep);
 }
 
-pub fn replay_file(path: &str) -> i32 {
+pub fn replay_file(path: &str, run_case: &(dyn Fn(&GCase) -> Outcome + Sync), replay_model: &dyn Fn(&str, &serde_json::Value) -> Option<Vec<String>>) -> i32 {
     let txt = match std::fs::read_to_string(path) {
         Ok(t) => t,
         Err(e) => {
@@ -89,9 +88,36 @@ pub fn replay_file(path: &str) -> i32 {
     };
     let v: serde_json::Value = serde_json::from_str(&txt).expect("replay file is not JSON");
     let cv = if v.get("case").is_some() { v["case"].clone() } else { v.clone() };
+    if cv.get("model").is_some() || cv.get("native").is_some() || cv.get("value_kind").is_some() {
+        // E2 / native / value cases: re-run that one model instance twice
+        let prop = v["property"].as_str().unwrap_or("").to_string();
+        let a = replay_model(&prop, &cv);
+        let b = replay_model(&prop, &cv);
+        if a != b {
+            eprintln!("MACHINERY: replay is not deterministic");
+            return 2;
+        }
+        return match a {
+            None => {
+                eprintln!("MACHINERY: this kind of case cannot be replayed individually; re-run the check");
+                2
+            }
+            Some(v) if v.is_empty() => {
+                println!("property held on this model instance (both runs)");
+                0
+            }
+            Some(v) => {
+                for d in &v {
+                    println!("violation: {}", d);
+                }
+                println!("VIOLATION property={} replay={}", prop, path);
+                1
+            }
+        };
+    }
     let case: GCase = serde_json::from_value(cv).expect("replay file holds no graph case");
-    let a = guarded(|| crate::props::run_case(&case));
-    let b = guarded(|| crate::props::run_case(&case));
+    let a = guarded(|| run_case(&case));
+    let b = guarded(|| run_case(&case));
     if a.err != b.err {
         eprintln!("MACHINERY: replay is not deterministic: {:?} vs {:?}", a.err, b.err);
         return 2;
